@@ -36,7 +36,7 @@ ASSUMPTIONS = ["CPython int/Fraction arithmetic is exact; int/int true division 
                "round at exact ties: either neighbour accepted (the statement fixes no tie rule)",
                "float ^ int, anything ^ non-int and complex / % // %% values depend on library algorithms: only level / coercion checked",
                "complex operands are taken from the operand echo (no constructor from parts exists)"]
-PLAN = {"quick": {"pairs": 20000, "cmeta": 6000, "unary": 20000, "vectors": 12000},
+PLAN = {"quick": {"pairs": 60000, "cmeta": 18000, "unary": 60000, "vectors": 36000},
         "thorough": {"pairs": 300000, "cmeta": 100000, "unary": 300000, "vectors": 200000}}
 
 REG = dict(level="exploration", min_nontrivial=5000,
